@@ -129,6 +129,12 @@ class Ctx:
         common.write_evidence(self.prop, self.tier, self.seed, self.cov, wall, nviol, self.assumptions)
         for l in lines:
             print(l)
+        if self.replay:
+            import json
+            rec = json.load(open(self.replay))
+            want = rec.get("key") or rec.get("no_longer_checks")
+            got = set(reported) | {n for n, _ in self.broken}
+            print(f"REPLAY of {self.replay}: recorded {want!r} -> {'reproduced on the current tree' if want in got else 'not reproduced on the current tree'}")
         print(f"{self.prop} tier={self.tier} seed={self.seed} obligations={self.cov.get('obligations', self.cov.get('proof_obligations_open'))} "
               f"discharged={self.cov.get('discharged', 0)} evaluations={self.cov['evaluations']} "
               f"violations={nviol} wall={wall:.1f}s")
